@@ -667,7 +667,7 @@ pub fn check_overtake(c: &Overtake) -> CheckResult {
             // the peer answers every request at once and reports that it has done so
             async fn peer<IO: FrameIo>(io: &mut IO, n: usize, sent: mpsc::Sender<()>) {
                 for _ in 0..n {
-                    let Ok(Some(f)) = io.recv().await else { return };
+                    let Ok(Ok(Some(f))) = tokio::time::timeout(call_timeout(), io.recv()).await else { return };
                     let body = serde_json::to_vec(&json!({"path": f.path()})).unwrap();
                     if io.send(&response_frame(&f, 0, 2, &body)).await.is_err() {
                         return;
